@@ -64,17 +64,16 @@ def run(ctx, rep):
     for variant in table:
         if variant not in SPEC_SCOPE:
             rep.violated('R1', 'apply/extra/' + str(variant), where, 'unexpected scope arm %s' % variant)
-    # folded left to right: _0 = fold(iter(deltas), clone(env), |env, delta| delta.apply(&env))
+    # folded left to right over the list, starting from the input env. Accepted idioms:
+    #   deltas.iter().fold(env.clone(), |env, delta| delta.apply(&env))
+    #   let mut r = env.clone(); for delta in deltas { r = delta.apply(&r) }; r
     rv = strip(sl.local(f, 0))
-    ok = rv[0] == 'call' and rv[1] == 'std::iter::Iterator::fold' and len(rv[2]) == 3
-    if ok:
+    rev = any(x[0] == 'call' and x[1].split('::')[-1].lower() in ('rev', 'reverse', 'sort', 'sort_by', 'sort_by_key') for x in walk(rv)) or \
+        any((c.name or '').split('::')[-1] in ('rev', 'reverse', 'sort', 'sort_by', 'sort_by_key', 'swap', 'rotate_left', 'rotate_right') for c in f.calls)
+    is_env = lambda v: strip(v)[0] == 'param' and strip(v)[1] == f.path and strip(v)[2] == 2
+    shape = None
+    if rv[0] == 'call' and rv[1] == 'std::iter::Iterator::fold' and len(rv[2]) == 3:
         it, init, cl = rv[2]
-        it = strip(it)
-        ok = it[0] == 'call' and it[1] in ('core::slice::<impl [T]>::iter', 'std::iter::IntoIterator::into_iter', 'std::slice::<impl [T]>::iter') \
-            or it[0] in ('phi', 'call')
-        rev = any(x[0] == 'call' and ('rev' in x[1].split('::')[-1] or 'Rev' in x[1]) for x in walk(rv[2][0]))
-        ok = ok and not rev
-        init_ok = strip(init)[0] == 'param' and strip(init)[2] == 2
         cl = strip(cl)
         body_ok = False
         if cl[0] == 'closure' and cl[1] in prog.fns:
@@ -82,10 +81,19 @@ def run(ctx, rep):
             bv = strip(sl.local(body, 0))
             body_ok = (bv[0] == 'call' and bv[1] == L.DAPPLY and strip(bv[2][0])[0] == 'param' and strip(bv[2][0])[2] == 2
                        and strip(bv[2][1])[0] == 'param' and strip(bv[2][1])[2] == 1)
-        rep.check(ok and init_ok and body_ok, 'R1', 'apply/fold', where, 'deltas folded in list order starting from the input env',
-                  'deltas are not folded left-to-right from the input env: ' + vstr(rv)[:160])
-    else:
-        rep.unproven('R1', 'apply/fold', where, 'result is not a fold over the delta list: ' + vstr(rv)[:160])
+        if is_env(init) and body_ok:
+            shape = 'fold'
+    elif rv[0] == 'phi':
+        alts = [strip(a) for a in rv[1]]
+        steps = [a for a in alts if a[0] == 'call' and a[1] == L.DAPPLY]
+        inits = [a for a in alts if is_env(a)]
+        if len(steps) == 1 and len(inits) == 1 and len(alts) == 2:
+            coll, proj = L.loop_element(steps[0][2][0])
+            calls = [c for c in f.calls if c.name == L.DAPPLY]
+            if coll is not None and len(calls) == 1 and f.in_loop(calls[0].bb):
+                shape = 'loop'
+    rep.check(shape is not None and not rev, 'R1', 'apply/fold', where, 'deltas applied one after the other in list order, starting from the input env (%s)' % shape,
+              'deltas are not folded left-to-right from the input env: ' + vstr(rv)[:160])
     # ---- R2 ----------------------------------------------------------------------------------------
     ifn, ranks = L.behaviour_index_table(prog, sl)
     wd, ws, winfo = L.writer_suffix_table(prog, sl)
